@@ -6,6 +6,11 @@ import tokenize
 import core
 from encode import encode
 
+import warnings
+# Python remarks on stderr about backslash sequences it does not know (the literal is accepted): not an outcome
+warnings.filterwarnings('ignore', category=SyntaxWarning)
+warnings.filterwarnings('ignore', category=DeprecationWarning, message='invalid .*escape')
+
 
 class _Ref:
   def __init__(self, name, ev):
@@ -76,8 +81,11 @@ KINDS = {tokenize.NAME: 'NAME', tokenize.NUMBER: 'NUMBER', tokenize.STRING: 'STR
 
 
 def _atom(s):
+  import warnings
   try:
-    return {'v': encode(ast.literal_eval(s))}
+    with warnings.catch_warnings():
+      warnings.simplefilter('ignore')
+      return {'v': encode(ast.literal_eval(s))}
   except Exception:  # pylint: disable=broad-except
     return None
 
@@ -103,9 +111,35 @@ def to_driver(text):
   return {'dom': 'parse', 'tokens': tokens_of(text)}
 
 
+def _py_dict(enc):
+  """Python's dict() over the (key, value) pairs the model read, in source order: of keys that compare equal the first
+  key stays, with the last value (hashing and equality of keys are CPython's; the model keeps every pair)."""
+  from encode import decode, canon
+  if isinstance(enc, dict):
+    if 'd' in enc:
+      out = {}
+      for k, v in enc['d']:
+        k2, v2 = _py_dict(k), _py_dict(v)
+        try:
+          pk = ('py', decode(k2, None))
+          hash(pk)
+        except Exception:  # pylint: disable=broad-except
+          pk = ('enc', canon(k2))
+        if pk in out:
+          out[pk][1] = v2
+        else:
+          out[pk] = [k2, v2]
+      return {'d': [list(x) for x in out.values()]}
+    return {k: _py_dict(v) for k, v in enc.items()}
+  if isinstance(enc, list):
+    return [_py_dict(x) for x in enc]
+  return enc
+
+
 def compare(impl, model):
   if 'stmts' not in model:
     return f'driver error: {model}'
+  model = dict(model, stmts=[(s[:4] + [_py_dict(s[4])] + s[5:]) if s and s[0] == 'bind' else s for s in model['stmts']])
   if impl['stmts'] != model['stmts']:
     for i, (a, b) in enumerate(zip(impl['stmts'], model['stmts'])):
       if a != b:
